@@ -153,6 +153,15 @@ def run(ctx):
     else:
         cat.run_alloc_faults(ctx, exe_a, ctx.run_env(leak=False))
 
+    # ------------------------------------------------------------------ 6. vnacal family: allocation failure, then the same call again
+    try:
+        exe_c = ctx.build_harness("err_calfault", san=True, wrap=True)
+    except vplib.BuildError as e:
+        broken["harness:err_calfault"] = str(e)[-600:]
+        ctx.obligation("catalogue:vnacal-fault-then-retry", False, "harness does not build")
+    else:
+        cat.run_cal_faults(ctx, exe_c, ctx.run_env(leak=False))
+
     ctx.extra["skipped"] = [{"what": w, "reason": r} for w, r in cat.SKIPPED]
     if runner.leak_reports:
         ctx.notes.append("LeakSanitizer reports seen while running the catalogue (memory leaks are property C03's "
